@@ -213,7 +213,6 @@ Section EncProofs.
   Hypothesis Hin : Refines S c Rin.
   (* fewer than 2^32 - 2 chunks: current_chunk_number is a u32 *)
   Hypothesis Hbig : nfull (len plain) + 2 < 2 ^ 32.
-
   Notation estate := (estate S).
   Notation eload := (eload CHUNK TAG ks tagc S).
   Notation eread := (eread CHUNK TAG ks tagc S).
@@ -335,10 +334,27 @@ Section EncProofs.
   Lemma Renc_pre s p : Renc s p -> Rpre s.
   Proof. intros (_ & _ & _ & _ & H). eexists; exact H. Qed.
 
+  (* the u64 / i64 ranges of the seek arithmetic (used by the seek lemmas only): the D20 guard of the Start arm
+     accepts every position of the plaintext — exactly `len plain / CHUNK <= u64::MAX / CHUNK_TAG_SIZE - 1` — and
+     the plaintext length fits an i64 (`i64::try_from(current).unwrap()`, `i64::try_from(end_pos)`).  Both follow
+     from Hbig when CHUNK + TAG <= 2^31 (ranges_of_sizes below), which the production and scaled constants meet. *)
+  Hypothesis Hu64 : (len plain / CHUNK + 1) * CTS <= 2 ^ 64 - 1.
+  Hypothesis Hi64 : len plain < 2 ^ 63.
+
+  (* the D20 guard passes on every position of the plaintext *)
+  Lemma start_guard_passes q : q <= len plain -> (U64MAX / CTS - 1 <? q / CHUNK) = false.
+  Proof.
+    intros Hq. unfold U64MAX.
+    assert (Hd : q / CHUNK <= len plain / CHUNK) by (apply N.div_le_mono; lia).
+    assert (Hb : len plain / CHUNK + 1 <= (2 ^ 64 - 1) / CTS).
+    { apply N.div_le_lower_bound; [rewrite CTS_eq; lia|]. rewrite N.mul_comm. exact Hu64. }
+    apply N.ltb_ge. lia.
+  Qed.
+
   Lemma eseek_start_spec s q : Rpre s -> q <= len plain ->
     exists s', eseek_start s q = (s', Ok q) /\ Renc s' q.
   Proof.
-    intros [pin HR] Hq. unfold EncLayer.eseek_start.
+    intros [pin HR] Hq. unfold EncLayer.eseek_start. rewrite (start_guard_passes q Hq).
     destruct (divmod_spec q CHUNK HCHUNK) as [Hqd Hr].
     set (k := q / CHUNK) in *. set (r := q mod CHUNK) in *.
     assert (Hnt : notag2tag q = k * CTS + r).
@@ -372,7 +388,8 @@ Section EncProofs.
       injection Ht as <-. rewrite <- Hpos.
       destruct (Z.eqb_spec d 0) as [->|Hd].
       + exists s. rewrite Z.add_0_r, N2Z.id. split; [reflexivity | exact HRs].
-      + unfold seek_target. destruct (Z.of_N p + d <? 0)%Z eqn:E2; [lia|].
+      + destruct (N.leb_spec (2 ^ 63) p) as [?|_]; [lia|].
+        unfold seek_target. destruct (Z.of_N p + d <? 0)%Z eqn:E2; [lia|].
         apply eseek_start_spec; [eapply Renc_pre; eassumption | lia].
     - destruct ((0 <=? Z.of_N (len plain) + d) && (Z.of_N (len plain) + d <=? Z.of_N (len plain)))%Z eqn:E;
         [|discriminate].
@@ -383,6 +400,8 @@ Section EncProofs.
         destruct ((0 <=? Z.of_N (len c)) && (Z.of_N (len c) <=? Z.of_N (len c)))%Z eqn:E3; [|lia].
         rewrite N2Z.id. reflexivity. }
       rewrite Hsk, len_c, end_pos_of_wire_len.
+      destruct (N.leb_spec (2 ^ 63) (len plain)) as [?|_]; [lia|].
+      replace (i64_fits (Z.of_N (len plain) + d)) with true by (unfold i64_fits; lia). cbn [negb].
       unfold seek_target. destruct (Z.of_N (len plain) + d <? 0)%Z eqn:E2; [lia|].
       apply eseek_start_spec; [|lia]. exists (len c). exact HR'.
   Qed.
@@ -404,3 +423,20 @@ Section EncProofs.
     intros HR. unfold enc_open. apply eseek_start_spec; [|lia]. exists pin. exact HR.
   Qed.
 End EncProofs.
+
+(* The two range premises of enc_reader_refines / enc_open_spec follow from the chunk bound Hbig once the size
+   constants are small: CHUNK_SIZE + TAG_LENGTH <= 2^31 (production: 131088; scaled: 80). *)
+Lemma ranges_of_sizes CHUNK TAG L : 0 < CHUNK -> CHUNK + TAG <= 2 ^ 31 ->
+  nfull CHUNK L + 2 < 2 ^ 32 ->
+  (L / CHUNK + 1) * CTS CHUNK TAG <= 2 ^ 64 - 1 /\ L < 2 ^ 63.
+Proof.
+  intros HC Hsz Hbig. unfold CTS, nfull in *.
+  pose proof (N.div_mod (L - 1) CHUNK ltac:(lia)) as H1.
+  pose proof (N.mod_lt (L - 1) CHUNK ltac:(lia)) as H2.
+  set (n := (L - 1) / CHUNK) in *.
+  assert (Hd : L / CHUNK <= n + 1).
+  { apply N.lt_succ_r. apply N.div_lt_upper_bound; [lia|]. nia. }
+  change (2 ^ 32) with 4294967296 in Hbig. change (2 ^ 31) with 2147483648 in Hsz.
+  change (2 ^ 64 - 1) with 18446744073709551615. change (2 ^ 63) with 9223372036854775808.
+  split; nia.
+Qed.
